@@ -1,24 +1,41 @@
-"""replay: re-validate a saved violation trace with TLC; if the scenario that
-produced it was saved next to it, re-execute it on /repo's current working tree
-and validate the fresh trace too."""
+"""replay: re-validate a saved violation trace with TLC (with the trace
+specification of the property it belongs to); if the scenario that produced it
+was saved next to it, re-execute it on /repo's current working tree and
+validate the fresh trace too."""
 import os, sys
 from core import *
 
 
+def module_for(path):
+    prop = os.path.basename(os.path.dirname(os.path.abspath(path)))
+    return {"C19": "ArduinoTrace", "C20": "ToolsTrace", "C08": "FootTrace"}.get(prop, "SkinnyTrace"), prop
+
+
 def main(path):
+    if path.endswith(".txt"):
+        # a design-level counterexample printed by TLC
+        print(open(path).read()[:6000])
+        return 1
     lines = [x for x in open(path).read().split("\n") if x]
-    module = "SkinnyTrace"
+    module, prop = module_for(path)
     with Work("replay") as w:
         r = validate_trace(w, lines, module=module)
-        print("saved trace: %s (%d of %d lines consumed)" % ("accepted" if r.accepted else "REJECTED", r.consumed, r.total))
+        print("saved trace (%s): %s (%d of %d lines consumed)" % (module, "accepted" if r.accepted else "REJECTED", r.consumed, r.total))
         for m in r.messages:
             print("  " + m[:1200])
         if not r.accepted and r.consumed < len(lines):
             print("  rejected event: " + lines[r.consumed][:600])
+        note = path + ".note"
+        if os.path.exists(note):
+            print("  note: " + open(note).read()[:400].strip())
         scn = path + ".scn"
         rc = 0 if r.accepted else 1
-        if os.path.exists(scn):
-            b = build(w)
+        if os.path.exists(scn) and module in ("SkinnyTrace", "ArduinoTrace"):
+            if module == "ArduinoTrace":
+                import props
+                b = props.build_arduino(w)
+            else:
+                b = build(w)
             fresh = run_drv(b, open(scn).read())
             r2 = validate_trace(w, fresh, module=module)
             print("re-executed on current tree: %s (%d of %d lines consumed)"
